@@ -30,7 +30,9 @@ FILES1 = {
     # below the first component a name may begin with two dots: an ordinary file / directory name there
     'sub/..x': b'dotdot-ish name one level down', 'sub/..d/f.txt': b'inside a dotdot-ish directory one level down', 'sub/deep/..x': b'two levels down',
 }
-FILES2 = {'shadow': b'root2 shadow is a file', 'dup.txt': b'from root2', 'only2.txt': b'only in second', 'sub/b2.txt': b'b2'}
+FILES2 = {'shadow': b'root2 shadow is a file', 'dup.txt': b'from root2', 'only2.txt': b'only in second', 'sub/b2.txt': b'b2',
+          # files whose type cannot be guessed from the name (their first bytes are read to decide), present in both directories
+          'noext': b'root2 text without extension\n', 'blob.zz9': b'\x00\x01root2 blob\xff' * 50}
 
 
 def mk_tree(base):
